@@ -360,7 +360,8 @@ def stepNormal (s : DSt) (o : Oracle) (frameSize maxDataBytes : Int) : DSt × Pk
   let s1 : DSt := { s with streamChannels := d.streamChannels, mode := d.mode, bandwidth := d.bandwidth,
                            toMono := d.toMono, forceChannels, prevChannels := prevChannels0 }
   let s2 : DSt :=
-    if o.completion = 0 then s1
+    -- SILK DTX return (:2117-2127): nothing is updated except prev_channels (fix 88264869)
+    if o.completion = 0 then { s1 with prevChannels := d.streamChannels }
     else { s1 with prevMode := (if d.toCelt ∧ o.completion = 1 then MODE_CELT_ONLY else d.mode),
                    prevChannels := d.streamChannels, prevFramesize := sp.1, first := false }
   (s2, { toc, frames := sp.2.toNat, lowBudget := false })
